@@ -30,7 +30,7 @@ RULE = ("scenario = one conversation (initialize + 1..5 list/call/read/get/ping/
         "per-carrier nuisance (latency, chunking); non-trivial = at least two carriers ran and the conversation has a notification, an error "
         "reply, an integer id or non-ASCII payload")
 PROBES = ["notifications_before_response", "error_reply", "int_id", "non_ascii_payload", "four_carriers", "nested_nulls"]
-TIERS = {"quick": {"runs": 600, "wall": 45.0}, "thorough": {"runs": 30000, "wall": 540.0}}
+TIERS = {"quick": {"runs": 3000, "wall": 45.0}, "thorough": {"runs": 80000, "wall": 560.0}}
 ASSUMPTIONS = ["fault-free by construction: only latency and chunking vary between carriers",
                "JSON-body HTTP runs only conversations without interleaved notifications (a single JSON object cannot express them)",
                "results are JSON objects (MCP results always are)"]
